@@ -1,4 +1,4 @@
-"""C15 -- scopes and name tables agree with Python's symbol table (VGC rules R15.1-R15.18)."""
+"""C15 -- scopes and name tables agree with Python's symbol table (VGC rules R15.1-R15.19)."""
 from __future__ import annotations
 
 import ast
@@ -23,6 +23,7 @@ EXPLANATION = (
 )
 EXPLANATION += " R15.17: a `:=` target inside a comprehension is not local to the comprehension; the containing scope's visitor collects it."
 EXPLANATION += " R15.18: in the scope visitors every path through the handler of a def / class stores the definition under its own name."
+EXPLANATION += " R15.19: a nonlocal name is filed under the result of a transitive search of the enclosing scopes (lookup), not of one scope's own table."
 ASSUMPTIONS = [
     "handler summaries are flow-insensitive; an unknown idiom makes a field count as reached (under-approximation of gaps)",
     "the oracle tables BINDS/TARGET_FIELDS/SCOPES/REDIRECTS in sa/grammar.py state the language reference",
@@ -86,6 +87,7 @@ def check(ctx, res) -> None:
     walrus_in_comprehension_rule(ctx, res, "R15.17")
     comprehension_sees_parent_rule(ctx, res, "R15.16")
     definition_binds_its_name_rule(ctx, res, "R15.18")
+    nonlocal_is_searched_outwards_rule(ctx, res, "R15.19")
 
 
 def _check_main(ctx, res) -> None:
@@ -707,3 +709,41 @@ def definition_binds_its_name_rule(ctx, res, rule: str) -> None:
                     "class body, which only the class visitor turns into a property) has a scope but no name -- get_names() of the enclosing scope lacks it and lookup() "
                     "answers None where the interpreter's symbol table has the binding", function=m.qualname)
     res.floor(rule, "def/class handlers that bind a name", n, 2)
+
+
+def nonlocal_is_searched_outwards_rule(ctx, res, rule: str) -> None:
+    """R15.19: `nonlocal x` names the binding of x in the NEAREST enclosing function that has one -- any number of functions up (the
+    decorator-factory idiom: `def retry(times): attempts = 0; def decorate(fn): def wrapper(): nonlocal attempts`).  The handler of
+    Nonlocal files the name under what a TRANSITIVE search of the enclosing scopes finds: the stored value comes from
+    `<scope>.lookup(name)`, or from a table lookup inside a loop that moves on to `.parent` when the name is not there.  One
+    scope's own table (`get_names().get(name)`) finds nothing two levels up: the name is missing from the function's table and a
+    later assignment makes a fresh local."""
+    idx = ctx.idx
+    from . import common
+    n = 0
+    seen = set()
+    for q in dict.fromkeys(SCOPE_VISITORS.values()):
+        m = idx.find_method(q, "_Nonlocal")
+        if m is None or m.qualname in seen:
+            continue
+        seen.add(m.qualname)
+        node = common.inlined(idx, m)
+        for st in walk_local(node):
+            if not (isinstance(st, ast.Assign) and any(isinstance(t, ast.Subscript) and is_self_attr(t.value, "names") for t in st.targets)):
+                continue
+            n += 1
+            v = common._subst_single_locals(node, st.value)
+            calls = [c for c in ast.walk(v) if isinstance(c, ast.Call)]
+            transitive = any(call_name(c) == "lookup" for c in calls)
+            if not transitive:
+                # a hand-written outward search: the lookup stands in a loop that also steps to `.parent`
+                for lp in walk_local(node):
+                    if isinstance(lp, (ast.While, ast.For)) and any(y is st for y in ast.walk(lp)) and any(
+                            isinstance(a, ast.Assign) and isinstance(a.value, ast.Attribute) and a.value.attr == "parent" for a in ast.walk(lp)):
+                        transitive = True
+            res.add(rule, f"{m.cls.name}._Nonlocal|searched-outwards#{n}", transitive, f"{m.unit.rel}:{st.lineno}",
+                    "the nonlocal name is filed under what a search through the enclosing scopes finds" if transitive else
+                    f"`{ast.unparse(st)[:70]}` takes the binding from ONE scope's own table: a variable bound two functions up (`def retry(): attempts = 0; def decorate(fn): def "
+                    "wrapper(): nonlocal attempts`) is not found, the name is missing from wrapper's table although the interpreter's symbol table has it, and lookup() gives a "
+                    "fresh local instead of retry's variable", function=m.qualname)
+    res.floor(rule, "stores of nonlocal names", n, 1)
